@@ -1,22 +1,34 @@
-From Emitter Require Import Lib.Base Model.MsgCodec Model.StoreLog.
+From Emitter Require Import Lib.Base Model.MsgCodec Model.Store Model.StoreLog Proofs.MsgCodecProofs.
 
-(* every acknowledged message is in the recovered store, and nothing is there that was never
-   handed to Store - for every sequence of stores, crashes (at any point, also inside a store call)
-   and restarts, and every behaviour of interrupted transactions *)
+(* a stored entry decodes back to the message: id, channel, payload, ttl - and its expiry is the
+   id's time plus the ttl *)
+Lemma recover_entry m : msg_ok m -> recover (entry_of m) = Ok m.
+Proof.
+  intros H. unfold recover, entry_of. cbn [kv_value]. rewrite <- (app_nil_r (enc_msg m)). rewrite (dec_enc_msg m [] H). reflexivity.
+Qed.
+
+(* every acknowledged message has its entry among the committed ones, and every committed entry is
+   the entry of a message that was handed to Store - for every sequence of stores, crashes (at any
+   point, also inside a store call) and restarts, and every behaviour of interrupted transactions *)
 Theorem acked_survive landed : forall ops s,
-  (forall m, In m (d_acked s) -> In m (d_committed s)) ->
-  (forall m, In m (d_committed s) -> In m (d_tried s)) ->
+  (forall m, In m (d_acked s) -> In (entry_of m) (d_committed s)) ->
+  (forall e, In e (d_committed s) -> exists m, In m (d_tried s) /\ e = entry_of m) ->
   let s' := fold_left (dstep landed) ops s in
-  (forall m, In m (d_acked s') -> In m (d_committed s')) /\ (forall m, In m (d_committed s') -> In m (d_tried s')).
+  (forall m, In m (d_acked s') -> In (entry_of m) (d_committed s'))
+  /\ (forall e, In e (d_committed s') -> exists m, In m (d_tried s') /\ e = entry_of m).
 Proof.
   induction ops as [|o ops IH]; intros s A B; cbn [fold_left]; [auto|].
   apply IH.
   - destruct o as [m [|] | |]; cbn [dstep d_acked d_committed]; try exact A.
-    + intros x H. apply in_app_or in H. apply in_or_app. destruct H as [H|H]; [left; apply A; exact H | right; exact H].
+    + intros x H. apply in_app_or in H. apply in_or_app. destruct H as [H|[<-|[]]]; [left; apply A; exact H | right; left; reflexivity].
     + intros x H. destruct (landed m); [apply in_or_app; left|]; apply A; exact H.
   - destruct o as [m [|] | |]; cbn [dstep d_tried d_committed]; try exact B.
-    + intros x H. apply in_app_or in H. apply in_or_app. destruct H as [H|H]; [left; apply B; exact H | right; exact H].
-    + intros x H. destruct (landed m).
-      * apply in_app_or in H. apply in_or_app. destruct H as [H|H]; [left; apply B; exact H | right; exact H].
-      * apply in_or_app. left. apply B. exact H.
+    + intros e H. apply in_app_or in H. destruct H as [H|[<-|[]]].
+      * destruct (B e H) as (x & Hx & E). exists x. split; [apply in_or_app; left; exact Hx | exact E].
+      * exists m. split; [apply in_or_app; right; left; reflexivity | reflexivity].
+    + intros e H. destruct (landed m).
+      * apply in_app_or in H. destruct H as [H|[<-|[]]].
+        -- destruct (B e H) as (x & Hx & E). exists x. split; [apply in_or_app; left; exact Hx | exact E].
+        -- exists m. split; [apply in_or_app; right; left; reflexivity | reflexivity].
+      * destruct (B e H) as (x & Hx & E). exists x. split; [apply in_or_app; left; exact Hx | exact E].
 Qed.
